@@ -5,9 +5,13 @@ Property theorems about the models of SkNet/Model/Vote.lean, Classify.lean, Clas
 specification of SkNet/Spec/Classify.lean.  Lemmas live in SkNet/Lemmas/Vote*.lean, Classify*.lean.
 -/
 import SkNet.Lemmas.VoteFit
+import SkNet.Lemmas.ClassifyDiffusionFit
+import SkNet.Lemmas.ClassifyReach
 
 namespace SkNet.C13
 open SkNet SkNet.Classify
+
+attribute [-simp] List.getD_eq_getElem?_getD
 
 /-! ## Label propagation -/
 
@@ -101,5 +105,120 @@ example : Vote.fit witnessGraph [-1,0,1,1,-1] { sigma := some [1,0] } 10 = some 
   intro s hs
   cases hs
   exact ⟨by decide, by decide +kernel⟩
+
+/-! ## DiffusionClassifier -/
+
+/-- a path 0–1–2–3 with unequal weights and an isolated node 4 -/
+def pathGraph : Csr Rat :=
+  { nRow := 5, nCol := 5, indptr := #[0,1,3,5,6,6], indices := #[1,0,2,1,3,2], data := #[2,2,1,1,3,3] }
+
+/-- ★ **seeds_kept** (DiffusionClassifier).  With non-negative weights every seed keeps its label, with or
+    without centring: the clamped temperatures stay in [0,1] (maximum principle), the row of a seed stays
+    one-hot, every class has a positive column mean and no column mean exceeds 1, so centring leaves the
+    arg-max of a seed row on its own class; seeds are at distance 0 and are never reset. -/
+theorem diffusion_seeds_kept (c : Csr Rat) (hw : ∀ p, 0 ≤ c.data.getD p 0) (labels : List Int) (nIter : Nat)
+    (centering : Bool) (o : Diffusion.Out) (h : Diffusion.fit c labels nIter centering = .ok o) :
+    Spec.seedsKept labels o.labels = true := by
+  have hp := Diffusion.fit_parts c labels nIter centering o h
+  unfold Spec.seedsKept
+  simp only [Bool.and_eq_true, beq_iff_eq, List.all_eq_true, List.mem_range, Bool.or_eq_true,
+    decide_eq_true_eq]
+  refine ⟨Diffusion.labels_length c labels nIter centering o hp, ?_⟩
+  intro i _
+  by_cases hs : labels.getD i (-1) < 0
+  · exact Or.inl hs
+  · exact Or.inr (Diffusion.seeds_kept c hw labels nIter centering o h i (by omega))
+
+/-- ★ **labels_in_seed_set** (DiffusionClassifier): every predicted label is a seed label or `-1`. -/
+theorem diffusion_labels_in_seed_set (c : Csr Rat) (labels : List Int) (nIter : Nat)
+    (centering : Bool) (o : Diffusion.Out) (h : Diffusion.fit c labels nIter centering = .ok o) :
+    Spec.labelsOK labels o.labels = true := by
+  have hp := Diffusion.fit_parts c labels nIter centering o h
+  have hlen := Diffusion.labels_length c labels nIter centering o hp
+  unfold Spec.labelsOK
+  simp only [List.all_eq_true, Bool.or_eq_true, beq_iff_eq, Bool.and_eq_true, decide_eq_true_eq,
+    List.contains_iff_mem]
+  intro x hx
+  obtain ⟨i, hi, rfl⟩ := List.mem_iff_getElem.mp hx
+  have hi' : i < labels.length := by omega
+  have hget : o.labels[i] = o.labels.getD i (-1) := by
+    rw [List.getD_eq_getElem?_getD, List.getElem?_eq_getElem hi]
+    rfl
+  rw [hget]
+  rcases Diffusion.label_cases c labels nIter centering o hp i hi' with ⟨_, h1⟩ | ⟨_, h1, h2⟩
+  · exact Or.inl h1
+  · exact Or.inr ⟨h2, h1⟩
+
+/-- ★ **diffusion_minus_one_iff**.  A node gets `-1` exactly when no walk from a seed reaches it; on an
+    undirected graph (symmetric `hasEdge`) these are exactly the nodes of the components without a seed.
+    (`reached` is the sign of `get_distances(adjacency, source=seeds)`; `reached_iff` ties it to walks.) -/
+theorem diffusion_minus_one_iff (c : Csr Rat) (labels : List Int) (nIter : Nat)
+    (centering : Bool) (o : Diffusion.Out) (h : Diffusion.fit c labels nIter centering = .ok o)
+    (i : Nat) (hi : i < labels.length) :
+    o.labels.getD i (-1) = -1 ↔
+      ¬ Spec.Reach labels.length (hasEdge c) (fun v => decide (0 ≤ labels.getD v (-1))) i := by
+  have hp := Diffusion.fit_parts c labels nIter centering o h
+  rw [← reached_iff, ← hp.reach]
+  rcases Diffusion.label_cases c labels nIter centering o hp i hi with ⟨h0, h1⟩ | ⟨h0, _, h2⟩
+  · rw [h0, h1]
+    simp
+  · constructor
+    · intro hm
+      omega
+    · intro hn
+      exact absurd h0 hn
+
+/-- the executable form used by the `spec` lines: `-1` iff not reached, for all nodes at once -/
+theorem diffusion_minusOneIff_spec (c : Csr Rat) (labels : List Int) (nIter : Nat)
+    (centering : Bool) (o : Diffusion.Out) (h : Diffusion.fit c labels nIter centering = .ok o) :
+    Spec.minusOneIff o.labels o.reached = true := by
+  have hp := Diffusion.fit_parts c labels nIter centering o h
+  have hlen := Diffusion.labels_length c labels nIter centering o hp
+  unfold Spec.minusOneIff
+  simp only [List.all_eq_true, List.mem_range, beq_iff_eq]
+  intro i hi
+  have hi' : i < labels.length := by omega
+  have h0 : o.labels.getD i 0 = o.labels.getD i (-1) := by
+    rw [List.getD_eq_getElem?_getD, List.getD_eq_getElem?_getD, List.getElem?_eq_getElem hi]
+    rfl
+  rw [h0]
+  rcases Diffusion.label_cases c labels nIter centering o hp i hi' with ⟨hr, h1⟩ | ⟨hr, _, h2⟩
+  · rw [hr, h1]
+    rfl
+  · have : o.labels.getD i (-1) ≠ -1 := by omega
+    rw [hr]
+    simpa using this
+
+/-- ★ **probability rows** (DiffusionClassifier without centring): every row of `normalize(temperatures)` is
+    non-negative and sums to 1, or to 0 (rows of unreached nodes are null). With centring the rows go
+    through `np.exp`, outside the model: they are checked on the implementation by the row specification. -/
+theorem diffusion_plain_rows (c : Csr Rat) (hw : ∀ p, 0 ≤ c.data.getD p 0) (labels : List Int) (nIter : Nat)
+    (o : Diffusion.Out) (h : Diffusion.fit c labels nIter false = .ok o) :
+    ∀ row ∈ Diffusion.probsPlain o, Spec.rowOK 0 row = true := by
+  have hp := Diffusion.fit_parts c labels nIter false o h
+  intro row hrow
+  unfold Diffusion.probsPlain at hrow
+  obtain ⟨i, _, rfl⟩ := (mem_tab _ _ _).mp hrow
+  split
+  · apply normalizeRow_rowOK
+    intro x hx
+    obtain ⟨q, hq, rfl⟩ := List.mem_iff_getElem.mp hx
+    have := Diffusion.getElem_getRow o.temps i q hq
+    rw [this, hp.temps]
+    simp only [Bool.false_eq_true, if_false]
+    exact (Diffusion.unit01_final c hw labels nIter i q).1
+  · unfold Spec.rowOK
+    simp only [Bool.and_eq_true, List.all_eq_true, decide_eq_true_eq, Bool.or_eq_true]
+    refine ⟨?_, Or.inr ?_⟩
+    · intro x hx
+      obtain ⟨_, _, rfl⟩ := List.mem_map.mp hx
+      exact le_refl 0
+    · rw [Diffusion.rsum_map_zero, rabs_zero]
+
+/-- non-vacuity: seeds `{0: 3, 3: 5}` on the weighted path with an isolated node, two iterations, centring -/
+example : (∀ p, 0 ≤ pathGraph.data.getD p 0) ∧
+    (Diffusion.fit pathGraph [3,-1,-1,5,-1] 2 true).map (·.labels) = .ok [3,3,5,5,-1] ∧
+    (Diffusion.fit pathGraph [3,-1,-1,5,-1] 2 false).map (·.labels) = .ok [3,3,5,5,-1] :=
+  ⟨Vote.getD_nonneg_of_forall _ (by decide +kernel), by decide +kernel, by decide +kernel⟩
 
 end SkNet.C13
